@@ -312,7 +312,13 @@ def rule_every_ring(chk, db, cfgname):
                             work.append(d)
                             cond, _ = C.branch_cond(g.blocks[d])
                             if d != head and cond is not None and '__begin' not in T.pstr(cond):
-                                extra.append(T.pstr(cond)[:60])
+                                # skipping a degenerate ring (fewer than 3 vertices / empty) loses no boundary
+                                calls = [y for y in T.walk(cond) if isinstance(y, dict) and y.get('k') == 'call']
+                                degenerate = calls and all(T.short(y.get('fn', '')) in ('size', 'empty') for y in calls) \
+                                    and not any(isinstance(y, dict) and y.get('k') == 'var' and y.get('s') == 'p'
+                                                for y in T.walk(cond))
+                                if not degenerate:
+                                    extra.append(T.pstr(cond)[:60])
                 ok = body is not None and not extra
                 chk.obligation(ok, {'function': f['name'], 'line': e.get('ln'),
                                     'OffsetContour in the ring loop is conditional on': extra or 'nothing'})
